@@ -833,15 +833,50 @@ func (pid *PID) Restart(ctx context.Context) error {
 	deathWatch := actorSystem.getDeathWatch()
 
 	// get the parent node of the actor
-	parent := pid.ActorSystem().NoSender()
-	if ppid, ok := tree.parent(pid); ok {
-		parent = ppid
+	parent, err := pid.restartParent(tree)
+	if err != nil {
+		return err
 	}
 
 	// snapshot all alive descendants before shutdown so we can rebuild the full subtree
 	// even after the death watch removes entries from the tree.
 	subtree := buildRestartSubtree(pid, tree)
 	return restartSubtree(ctx, subtree, parent, tree, deathWatch, actorSystem)
+}
+
+// restartParent resolves the actor Restart re-attaches pid under. A running
+// actor is found in the tree. An actor whose stop has completed is not: the
+// death watch removed its node, and falling back to NoSender would make
+// addOrAttachNode a no-op, leaving the re-initialised actor running outside the
+// tree (not resolvable by name, not stopped with its parent nor by
+// ActorSystem.Stop). The parent is then recovered from the address the actor
+// was spawned with: the recorded parent for a child, the user guardian for a
+// top-level actor. A child whose parent is gone cannot be restarted.
+func (pid *PID) restartParent(tree *tree) (*PID, error) {
+	if ppid, ok := tree.parent(pid); ok {
+		return ppid, nil
+	}
+
+	actorSystem := pid.ActorSystem()
+	if isSystemName(pid.Name()) {
+		return actorSystem.NoSender(), nil
+	}
+
+	if addr := pid.getAddress(); addr != nil {
+		if recorded := addr.Parent(); recorded != nil && !recorded.Equals(address.NoSender()) {
+			if node, ok := tree.node(recorded.String()); ok {
+				if ppid := node.value(); ppid != nil && ppid.IsRunning() {
+					return ppid, nil
+				}
+			}
+			return nil, gerrors.NewErrActorNotFound(recorded.String())
+		}
+	}
+
+	if guardian := actorSystem.getUserGuardian(); guardian != nil {
+		return guardian, nil
+	}
+	return actorSystem.NoSender(), nil
 }
 
 // restartUnder restarts a local child below the given parent. The restart
